@@ -1,4 +1,234 @@
+// C15: cancellation is all-or-nothing at every check; progress is monotone and
+// ends at 1. One job = one scenario (setup ops, lazily built expression ops,
+// observed operation) x one schedule seed; inside it the cancel flag is set by
+// the k-th IsCancelled check itself (hook H1) for every requested k.
+#include <chrono>
+
+#include "execution_impl.h"
+#include "impl.h"
 #include "jobs.h"
+#include "ops.h"
+#include "oracles.h"
+
 namespace vh {
-void register_c15() {}
+namespace {
+
+struct Scenario {
+  std::vector<Op> setup, expr;
+  Op obs;
+};
+
+struct RunResult {
+  std::string fp;            // fingerprint of the observed result
+  int status = -1;
+  bool empty = false;
+  std::vector<std::string> operandFp;  // phase-1 objects after the call
+  std::string stickyClause;  // "" or clause broken by the sticky/cancel checks
+  std::string rebuildFp;     // expression rebuilt with a fresh context
+  double finalProgress = -1;
+  bool ctxCancelled = false;
+};
+
+Manifold observe_with(Env& e, const Op& obs, ExecutionContext& ctx, bool* ok) {
+  *ok = true;
+  const std::string& n = obs.name;
+  const Manifold subject = e.M.back();
+  auto A = [&](size_t i, int64_t d = 0) { return obs.arg(i, d); };
+  if (n == "status") {
+    Manifold w = subject.WithContext(ctx);
+    (void)w.Status();
+    return w;
+  }
+  if (n == "refine") return subject.WithContext(ctx).Refine(2 + (int)((A(0) % 3 + 3) % 3));
+  if (n == "refinelen") return subject.WithContext(ctx).RefineToLength(U(A(0), .08, .4));
+  if (n == "refinetol") return subject.WithContext(ctx).RefineToTolerance(U(A(0), .002, .05));
+  if (n == "hull") return subject.WithContext(ctx).Hull();
+  if (n == "minksum") return subject.WithContext(ctx).MinkowskiSum(e.m(A(0)));
+  if (n == "minkdiff") return subject.WithContext(ctx).MinkowskiDifference(e.m(A(0)));
+  if (n == "frommesh") return ctx.FromMeshGL(subject.GetMeshGL64());
+  if (n == "frommesh32") return ctx.FromMeshGL(subject.GetMeshGL());
+  if (n == "smooth") {
+    MeshGL64 g = subject.GetMeshGL64();
+    std::vector<Smoothness> sharp;
+    if (A(0) % 2 && g.triVerts.size() >= 3) sharp.push_back({(size_t)(A(1) % (int64_t)g.triVerts.size()), U(A(2), 0, 1)});
+    return ctx.Smooth(g, sharp);
+  }
+  if (n == "levelset") return ctx.LevelSet(sdf_kind(A(2), A(0)), Box(vec3(-1), vec3(1)), U(A(1), .04, .25), 0, -1, A(3, 1) % 2);
+  *ok = false;
+  return Manifold();
+}
+
+bool single_evaluation(const std::string& obs) { return obs != "minksum" && obs != "minkdiff"; }
+
+struct ProgressTrace {
+  double last = -1;
+  long samples = 0;
+  std::string clause;
+  bool monotone = true;
+  void sample(int done, int total) {
+    double p = total == 0 ? 1.0 : (double)done / total;
+    samples++;
+    if (!(p >= 0.0 && p <= 1.0) && clause.empty()) clause = "progress_out_of_range:" + std::to_string(p);
+    if (monotone && p < last && clause.empty()) clause = "progress_decreased:" + std::to_string(last) + "->" + std::to_string(p);
+    last = p;
+  }
+};
+
+// Runs the scenario once. k<=0: no cancel (counts checks).
+RunResult run_once(const Scenario& sc, const SimSetup& s, long k, long* nChecks, ProgressTrace* pt, SimOutcome* outc,
+                   const std::vector<std::string>* refOperands) {
+  RunResult rr;
+  SimOutcome out = run_simulated(s, [&]() {
+    Env e;
+    e.capM = 64;
+    e.capX = 64;
+    for (auto& op : sc.setup) exec(e, op);
+    if (e.M.empty()) e.pushM(Manifold::Cube());
+    for (auto& m : e.M) (void)m.Status();  // operands are evaluated before the observed call
+    const size_t nOperands = e.M.size(), nOperandsX = e.X.size();
+    const uint32_t idCounterBefore = Manifold::Impl::meshIDCounter_;
+    for (auto& op : sc.expr) exec(e, op);
+    ExecutionContext ctx;
+    g_probe = CancelProbe();
+    g_probe.target = ctx.impl_.get();
+    g_probe.countdown = k;
+    if (pt) {
+      pt->monotone = single_evaluation(sc.obs.name);
+      g_probe.observer = [pt](int d, int t) { pt->sample(d, t); };
+    }
+    install_cancel_probe();
+    bool ok;
+    Manifold res = observe_with(e, sc.obs, ctx, &ok);
+    rr.status = (int)res.Status();
+    if (nChecks) *nChecks = g_probe.checks;
+    remove_cancel_probe();
+    rr.finalProgress = ctx.Progress();
+    rr.ctxCancelled = ctx.Cancelled();
+    rr.fp = fp_manifold(res);
+    rr.empty = res.IsEmpty() && res.NumVert() == 0 && res.NumTri() == 0;
+    if (res.Status() == Manifold::Error::Cancelled) {
+      // stays Cancelled on re-query and through deriving ops
+      if (res.Status() != Manifold::Error::Cancelled) rr.stickyClause = "status_not_sticky";
+      if (!rr.empty) rr.stickyClause = "cancelled_result_not_empty";
+      if (res.Translate(vec3(1, 0, 0)).Status() != Manifold::Error::Cancelled) rr.stickyClause = "translate_loses_cancelled";
+      if ((res + Manifold::Cube()).Status() != Manifold::Error::Cancelled) rr.stickyClause = "boolean_loses_cancelled";
+      if (res.Refine(2).Status() != Manifold::Error::Cancelled) rr.stickyClause = "refine_loses_cancelled";
+      // a cancelled context short-circuits every later evaluation through it
+      if (ctx.Cancelled()) {
+        Manifold other = (Manifold::Cube() + Manifold::Sphere(0.6, 8).Translate(vec3(0.3, 0, 0))).WithContext(ctx);
+        if (other.Status() != Manifold::Error::Cancelled) rr.stickyClause = "cancelled_ctx_does_not_short_circuit";
+      } else {
+        rr.stickyClause = "result_cancelled_but_ctx_not";
+      }
+    }
+    // operands untouched
+    for (size_t i = 0; i < nOperands; i++) rr.operandFp.push_back(fp_manifold(e.M[i]));
+    // rebuild from the operands with a fresh context
+    if (k > 0) {
+      e.M.resize(nOperands);
+      e.idM.resize(nOperands);
+      e.X.resize(nOperandsX);
+      e.idX.resize(nOperandsX);
+      // IDs are allocated from a global counter: rewind it so that the rebuilt
+      // expression is numbered like the reference run.
+      Manifold::Impl::meshIDCounter_ = idCounterBefore;
+      for (auto& op : sc.expr) exec(e, op);
+      ExecutionContext fresh;
+      bool ok2;
+      Manifold again = observe_with(e, sc.obs, fresh, &ok2);
+      rr.rebuildFp = fp_manifold(again);
+    }
+  });
+  if (outc) *outc = out;
+  (void)refOperands;
+  return rr;
+}
+
+std::string job_c15(const Args& a) {
+  SimSetup s = sim_setup(a);
+  Scenario sc;
+  sc.setup = parse_program(a.s("setup"));
+  sc.expr = parse_program(a.s("expr", ""));
+  auto ob = parse_program(a.s("obs", "status"));
+  sc.obs = ob.empty() ? Op{"status", {}} : ob[0];
+  JArr viol;
+  long N = 0;
+  ProgressTrace pt;
+  SimOutcome out0;
+  const auto t0 = std::chrono::steady_clock::now();
+  RunResult ref = run_once(sc, s, -1, &N, &pt, &out0, nullptr);
+  const double run0ms = std::chrono::duration<double, std::milli>(std::chrono::steady_clock::now() - t0).count();
+  auto addViol = [&](long k, const std::string& clause) {
+    viol.raw(JObj().i64("k", k).str("clause", clause).done());
+  };
+  if (!pt.clause.empty()) addViol(0, pt.clause);
+  if (ref.status == (int)Manifold::Error::NoError || ref.status != (int)Manifold::Error::Cancelled) {
+    if (ref.finalProgress != 1.0) addViol(0, "final_progress_not_1:" + std::to_string(ref.finalProgress));
+  }
+  if (ref.status == (int)Manifold::Error::Cancelled) addViol(0, "cancelled_without_cancel");
+  // which k
+  std::vector<long> ks;
+  if (a.has("k")) {
+    for (auto& t : split(a.s("k"), ',')) ks.push_back(strtol(t.c_str(), nullptr, 10));
+  } else {
+    long maxk = a.i("maxk", 400);
+    // Sample size (never a verdict) is bounded by a wall-clock budget: each
+    // injected run costs about twice the uncancelled one (it also rebuilds).
+    if (a.has("budget_ms")) {
+      long afford = (long)(a.d("budget_ms") / std::max(0.05, 2.0 * run0ms));
+      if (afford < 44) afford = 44;
+      if (afford < maxk) maxk = afford;
+    }
+    if (N <= maxk) {
+      for (long k = 1; k <= N; k++) ks.push_back(k);
+    } else {
+      Rng r(a.u("kseed", 1));
+      // stratified sample: first and last 20, then one per stratum
+      for (long k = 1; k <= 20; k++) ks.push_back(k);
+      for (long k = N - 19; k <= N; k++) ks.push_back(k);
+      long strata = maxk - 40;
+      for (long i = 0; i < strata; i++) {
+        long lo = 21 + (N - 40) * i / strata, hi = 21 + (N - 40) * (i + 1) / strata;
+        if (hi <= lo) hi = lo + 1;
+        ks.push_back(lo + (long)r.below((uint32_t)(hi - lo)));
+      }
+    }
+  }
+  long nCancelled = 0, nCompleted = 0, nNotReached = 0;
+  uint64_t steps = out0.st.steps;
+  for (long k : ks) {
+    long checks = 0;
+    ProgressTrace ptk;
+    SimOutcome outk;
+    RunResult r = run_once(sc, s, k, &checks, &ptk, &outk, nullptr);
+    steps += outk.st.steps;
+    if (outk.exception) addViol(k, "exception:" + outk.what);
+    if (checks < k) {
+      nNotReached++;  // schedule diverged before reaching k (must not happen)
+      if (!outk.st.stepCapHit) addViol(k, "check_index_not_reached");
+      continue;
+    }
+    if (r.status == (int)Manifold::Error::NoError || (r.status != (int)Manifold::Error::Cancelled)) {
+      nCompleted++;
+      if (r.fp != ref.fp) addViol(k, "completed_result_differs_from_uncancelled:" + fp_diff(ref.fp, r.fp));
+    } else {
+      nCancelled++;
+      if (!r.stickyClause.empty()) addViol(k, r.stickyClause);
+    }
+    if (r.operandFp != ref.operandFp) addViol(k, "operand_changed");
+    if (!r.rebuildFp.empty() && r.rebuildFp != ref.fp) addViol(k, "rebuild_with_fresh_context_differs:" + fp_diff(ref.fp, r.rebuildFp));
+    if (!ptk.clause.empty()) addViol(k, ptk.clause);
+  }
+  JObj j;
+  j.i64("checks", N).i64("k_tested", (int64_t)ks.size()).i64("cancelled", nCancelled).i64("completed", nCompleted);
+  j.i64("not_reached", nNotReached).i64("progress_samples", pt.samples).num("final_progress", ref.finalProgress);
+  j.i64("ref_status", ref.status).str("ref_fp", ref.fp.substr(0, 60)).u64("total_steps", steps);
+  j.raw("viol", viol.done()).raw("sim", outcome_json(out0));
+  return j.done();
+}
+
+}  // namespace
+
+void register_c15() { registry()["c15"] = job_c15; }
+
 }  // namespace vh
